@@ -180,3 +180,226 @@ Theorem C13_failed_changes_nothing :
   forall e s o, (forall s' u, step e s o <> Ok s' u) -> step' e s o = s.
 Proof. exact step_err_same. Qed.
 Print Assumptions C13_failed_changes_nothing.
+
+(* life cycle: the record stored under an id changes only by: creation (absent -> Open),
+   claim (Open -> Completed, with a preimage), refund (Expired -> Completed), expiry at a block
+   whose height has reached the expiry height (Open -> Expired), deletion of a Completed swap
+   once closed block + 86400 has been reached; all other fields never change *)
+Theorem C13_lifecycle :
+  forall e s o s', Inv e s -> step e s o = Ok s' tt ->
+  forall i, sw_change e s o i (lookup i (s_swaps s)) (lookup i (s_swaps s')).
+Proof. exact lifecycle. Qed.
+Print Assumptions C13_lifecycle.
+
+(* the exact effect of a block begin at height h on every stored swap: every open swap whose
+   expiry height has been reached expires, every closed swap past the horizon is deleted
+   (by C13_indexes together with its index entry), nothing else changes *)
+Theorem C13_begin_block_effect :
+  forall e s h t j, Inv e s ->
+  lookup j (s_swaps (begin_block e s h t)) =
+  match lookup j (s_swaps s) with
+  | None => None
+  | Some u =>
+      if status_eqb (sw_status u) Open && (sw_expire u <=? h) then Some (expired_of u)
+      else if status_eqb (sw_status u) Completed && (sw_closed u + LONGTERM <=? h) then None
+      else Some u
+  end.
+Proof. exact begin_block_lookup. Qed.
+Print Assumptions C13_begin_block_effect.
+
+(* with block heights that do not decrease: expired swaps are past their expiry height, in
+   every reachable state; hence a refund succeeds only at a height >= the expiry height *)
+Theorem C13_expired_means_height_reached :
+  forall e ops s, env_wf e -> hist_ok e s ops -> Inv e s -> InvH s ->
+  Inv e (run e s ops) /\ InvH (run e s ops).
+Proof. intros e ops s. exact (run_inv_height e ops s). Qed.
+Print Assumptions C13_expired_means_height_reached.
+
+Theorem C13_refund_only_after_expiry_height :
+  forall e s from i s', InvH s -> refund e s from i = Ok s' tt ->
+  exists w, lookup i (s_swaps s) = Some w /\ sw_status w = Expired /\ sw_expire w <= s_height s.
+Proof. exact refund_after_expiry. Qed.
+Print Assumptions C13_refund_only_after_expiry_height.
+
+(* never both: after a successful claim or refund of swap i, neither a claim nor a refund of i
+   succeeds (until the record is deleted and the id is used by a new swap) *)
+Theorem C13_never_both :
+  forall e s i w, lookup i (s_swaps s) = Some w -> sw_status w = Completed ->
+  (forall from secret, claim e s from i secret = Err) /\ (forall from, refund e s from i = Err).
+Proof.
+  intros e s i w Hl Hc. split; intros; [unfold claim|unfold refund]; rewrite Hl, Hc; reflexivity.
+Qed.
+Print Assumptions C13_never_both.
+
+(* same-block race: in one state at most one of claim and refund can succeed on a swap *)
+Theorem C13_claim_refund_exclusive :
+  forall e s i from1 secret from2 s1 s2,
+  claim e s from1 i secret = Ok s1 tt -> refund e s from2 i = Ok s2 tt -> False.
+Proof.
+  intros e s i from1 secret from2 s1 s2 H1 H2.
+  apply claim_gate in H1. apply refund_gate in H2.
+  destruct H1 as (w1 & L1 & O1 & _). destruct H2 as (w2 & L2 & E2 & _). congruence.
+Qed.
+Print Assumptions C13_claim_refund_exclusive.
+
+(* the gates do not get stuck *)
+Theorem C13_open_swap_claimable_with_preimage :
+  forall e s from i secret w,
+  Inv e s -> lookup i (s_swaps s) = Some w -> sw_status w = Open ->
+  e_hash e secret (sw_ts w) = sw_hash w ->
+  (sw_dir w = Incoming -> e_blocked e (sw_recip w) = false) ->
+  exists s', claim e s from i secret = Ok s' tt.
+Proof. exact claim_succeeds. Qed.
+Print Assumptions C13_open_swap_claimable_with_preimage.
+
+Theorem C13_expired_swap_refundable :
+  forall e s from i w,
+  Inv e s -> lookup i (s_swaps s) = Some w -> sw_status w = Expired ->
+  (sw_dir w = Outgoing -> e_blocked e (sw_sender w) = false) ->
+  exists s', refund e s from i = Ok s' tt.
+Proof. exact refund_succeeds. Qed.
+Print Assumptions C13_expired_swap_refundable.
+
+(* a create that would take current + incoming above the limit in force is refused, and one
+   within the limits is not refused for that reason: the check is exact *)
+Theorem C13_incoming_limit_exact :
+  forall a sp x, (exists sp', inc_incoming a sp x = Some sp') <->
+  (sp_cur sp + sp_inc sp + x <= a_limit a /\
+   (a_tlimited a = true -> sp_tl sp + sp_inc sp + x <= a_tlimit a)).
+Proof.
+  intros a sp x. split.
+  - intros [sp' H]. apply inc_incoming_some in H. tauto.
+  - intros [L1 L2]. unfold inc_incoming.
+    destruct (Z.ltb_spec (a_limit a) (sp_cur sp + sp_inc sp + x)); [lia|].
+    destruct (a_tlimited a); cbn [andb].
+    + specialize (L2 eq_refl). destruct (Z.ltb_spec (a_tlimit a) (sp_tl sp + sp_inc sp + x)); [lia|]. eexists; reflexivity.
+    + eexists; reflexivity.
+Qed.
+Print Assumptions C13_incoming_limit_exact.
+
+(* Non-vacuity: a concrete environment and initial state satisfy the hypotheses; a full
+   life cycle (create incoming, claim with the preimage, wrong secret refused, create
+   outgoing, expire, refund, deletion after the horizon) runs in the model. *)
+Definition ex_env : env :=
+  mk_env 4 2 3 [false; false; false; true] [false; false; false; true]
+    [mkAsset 0 1000 true 3600000000000 600 true 2 10 1 500 2 5]
+    [(1%nat, 1000, 7%nat); (1%nat, 1001, 9%nat); (2%nat, 1000, 8%nat)] [300; 0] [5000; 0].
+Definition ex_init : state :=
+  mk_state 10 1000000000000 1000000000000 [mkSup 0 0 300 0 0] [[1000;0];[1000;0];[1000;0];[0;0]] [5000; 0].
+
+Example C13_hypotheses_satisfiable : env_wf ex_env /\ Inv ex_env ex_init /\ InvH ex_init.
+Proof.
+  split; [|split].
+  - split; [reflexivity|]. intros d a. unfold ex_env, mk_env; cbn [e_assets find_asset a_denom].
+    destruct d as [|d]; cbn; [|discriminate]. intros H; inversion H; subst; cbn; lia.
+  - apply inv_init; try reflexivity. intros d. cbv zeta.
+    assert (Hd : d = 0%nat \/ d = 1%nat \/ exists k, d = S (S k)) by (destruct d as [|[|k]]; eauto).
+    destruct Hd as [->|[->|[k ->]]].
+    + cbn. repeat (split; [lia|]). intros a H. inversion H; subst; cbn. split; [lia|intros _; lia].
+    + cbn. repeat (split; [lia|]). intros a H. discriminate.
+    + cbn. destruct k; cbn; repeat (split; [lia|]); intros a H; discriminate.
+  - intros i w H. discriminate.
+Qed.
+
+Example C13_full_cycle_runs :
+  let ops := [Create 7 1000 3 2 0 1 [(0%nat, 200)] true;       (* deputy 2 -> user 0, incoming 200 *)
+              Claim 1 (7%nat, 2%nat, 1%nat) 2;                   (* wrong secret: refused *)
+              Claim 1 (7%nat, 2%nat, 1%nat) 1;                   (* preimage: paid *)
+              Create 9 1001 3 0 2 1 [(0%nat, 150)] true;         (* user 0 -> deputy, outgoing 150 *)
+              Refund 0 (9%nat, 0%nat, 1%nat);                    (* still open: refused *)
+              BeginBlock 13 1006000000000;                       (* expires it *)
+              Claim 0 (9%nat, 0%nat, 1%nat) 1;                   (* expired: refused *)
+              Refund 0 (9%nat, 0%nat, 1%nat);                    (* refunded *)
+              Refund 0 (9%nat, 0%nat, 1%nat);                    (* never twice *)
+              BeginBlock 86413 1012000000000] in                 (* both closed swaps deleted *)
+  let s := run ex_env ex_init ops in
+  map (fun o => class_of (step ex_env ex_init o)) [nth 0 ops (BeginBlock 0 0)] = [ROk] /\
+  inv_b ex_env s = true /\
+  s_swaps s = [] /\ s_longterm s = [] /\ s_byblock s = [] /\
+  s_bal s 0%nat 0%nat = 1200 /\ s_bal s 3%nat 0%nat = 0 /\ sp_cur (s_sup s 0%nat) = 500 /\
+  map p_kind (g_log s) = [RefundOut; ClaimIn] /\ s_bsup s 0%nat = 5200.
+Proof. vm_compute. repeat split; reflexivity. Qed.
+
+(* the ghost state is written exactly by the operations that pay out: a create takes the next
+   instance number and logs nothing; a successful claim or refund logs one entry carrying the
+   instance number, denom and amount of the swap it closed; a block begin logs nothing *)
+Theorem C13_ghost_log_faithful :
+  forall e s o s', Inv e s -> step e s o = Ok s' tt ->
+  match o with
+  | Create h _ _ sender _ soc _ _ =>
+      g_log s' = g_log s /\ g_next s' = S (g_next s) /\
+      exists w, lookup (h, sender, soc) (s_swaps s') = Some w /\ sw_serial w = g_next s
+  | Claim _ i _ | Refund _ i =>
+      g_next s' = g_next s /\
+      exists w k to, lookup i (s_swaps s) = Some w /\
+        g_log s' = mkPay (sw_serial w) k (sw_denom w) (sw_amt w) to :: g_log s
+  | BeginBlock _ _ => g_log s' = g_log s /\ g_next s' = g_next s
+  end.
+Proof.
+  intros e s o s' I H.
+  destruct o as [h ts span sender recip soc coins cross|from i secret|from i|h t]; cbn [step] in H.
+  - apply create_shape in H.
+    destruct H as (d & x & a & dir & sp & bal' & _ & _ & _ & _ & _ & _ & _ & _ & ->).
+    cbn [g_log g_next s_swaps]. split; [reflexivity|]. split; [reflexivity|].
+    eexists. rewrite lookup_set_same. split; reflexivity.
+  - apply claim_shape in H. destruct H as (w & Hl & _ & _ & H). cbv zeta in H.
+    destruct H as [(_ & ? & ? & ? & _ & _ & _ & _ & _ & ->)|(_ & ? & ? & _ & _ & _ & ->)];
+      (split; [reflexivity|]); exists w; eexists; eexists; (split; [exact Hl|reflexivity]).
+  - apply refund_shape in H. destruct H as (w & Hl & _ & H). cbv zeta in H.
+    destruct H as [(_ & ? & _ & ->)|(_ & ? & _ & _ & _ & ->)];
+      (split; [reflexivity|]); exists w; eexists; eexists; (split; [exact Hl|reflexivity]).
+  - inversion H; subst. destruct (begin_block_funds e s h t I) as (_ & _ & L & N & _). auto.
+Qed.
+Print Assumptions C13_ghost_log_faithful.
+
+(* Why [op_ok] is needed: at keeper level (no signature check) an outgoing swap "sent" by the
+   module account itself raises the outgoing supply without moving coins; the custody equation
+   then fails.  The module account has no key, so no message can have it as sender. *)
+Example C13_custody_needs_sender_guard :
+  let e := mk_env 4 2 3 [false; false; false; true] [false; false; false; true]
+             [mkAsset 0 1000 false 0 0 true 2 0 1 500 2 5] [] [300; 0] [5000; 0] in
+  let s0 := mk_state 10 1000000000000 1000000000000 [mkSup 0 0 300 0 0] [[1000;0];[1000;0];[1000;0];[0;0]] [5000; 0] in
+  let s := run e s0 [Create 9 1000 3 0 2 1 [(0%nat, 150)] true;      (* honest outgoing swap: module holds 150 *)
+                     Create 8 1000 3 3 2 1 [(0%nat, 100)] true] in   (* "sender" 3 = the module account *)
+  inv_b e s0 = true /\ s_bal s 3%nat 0%nat = 150 /\ live_out_sum s 0%nat = 250.
+Proof. vm_compute. repeat split; reflexivity. Qed.
+
+(* the boolean invariant that the correspondence run evaluates on every model state is implied
+   by the invariant: on reachable states it cannot be false *)
+Theorem C13_checked_invariant_is_implied :
+  forall e s, Inv e s -> inv_b e s = true.
+Proof. exact inv_b_complete. Qed.
+Print Assumptions C13_checked_invariant_is_implied.
+
+(* the time-limited allowance "within a period": at a block begin every asset's record is ticked
+   once with the time since the previous block: the elapsed time accumulates while it stays below
+   the period of a time-limited asset, otherwise elapsed time and time-limited current supply are
+   reset to 0 ([tick_supply]); a claim of an incoming swap adds its amount to the time-limited
+   current supply of a time-limited asset and is refused above the allowance; nothing else
+   changes the time-limited current supply *)
+Theorem C13_period_accounting :
+  forall e s h t d, Inv e s -> NoDup (map a_denom (e_assets e)) -> e_assets e <> [] ->
+  let s' := begin_block e s h t in
+  s_prev s' = t /\
+  s_sup s' d = match find_asset d (e_assets e) with
+               | Some a => tick_supply a (s_sup s d) (t - s_prev s)
+               | None => s_sup s d
+               end.
+Proof. exact begin_block_supply. Qed.
+Print Assumptions C13_period_accounting.
+
+Theorem C13_claim_updates_counters :
+  forall e s from i secret s', claim e s from i secret = Ok s' tt ->
+  exists w, lookup i (s_swaps s) = Some w /\
+    let d := sw_denom w in let x := sw_amt w in let sp := s_sup s d in
+    (forall d', d' <> d -> s_sup s' d' = s_sup s d') /\
+    match sw_dir w with
+    | Incoming => exists a, find_asset d (e_assets e) = Some a /\
+        s_sup s' d = mkSup (sp_inc sp - x) (sp_out sp) (sp_cur sp + x)
+                           (if a_tlimited a then sp_tl sp + x else sp_tl sp) (sp_elapsed sp) /\
+        sp_cur sp + x <= a_limit a /\ (a_tlimited a = true -> sp_tl sp + x <= a_tlimit a)
+    | Outgoing =>
+        s_sup s' d = mkSup (sp_inc sp) (sp_out sp - x) (sp_cur sp - x) (sp_tl sp) (sp_elapsed sp)
+    end.
+Proof. exact claim_supply. Qed.
+Print Assumptions C13_claim_updates_counters.
